@@ -172,3 +172,51 @@ def compare(m, r, S, tol=1e-9):
     if not order_same and not diffs:
         diffs_order = True   # noqa: F841  (order/rotation differences are reported separately by callers that care, e.g. C09)
     return diffs
+
+
+# ---------------------------------------------------------------- extraction cross-check (DESIGN 1.3)
+def coq_crosscheck(samples, workdir=None):
+    """samples: list of (pos, edges, crossing, S, m) with m = parse_model(driver output).  The extracted driver's
+    answers (rotation system and plaquette list with area and winding numbers) are re-derived INSIDE Coq by
+    vm_compute on the same lattice literal and must coincide, so a wrong extraction or driver bug cannot
+    silently vouch for the model.  Returns the number of goals checked; raises RuntimeError on a difference."""
+    import tempfile
+    def z(n):
+        return f"({int(n)})%Z"
+    def nl(xs):
+        return "[" + "; ".join(str(int(x)) for x in xs) + "]%nat"
+    body = ["From Coq Require Import List ZArith Bool.", "From Koala Require Import Model.Lattice.",
+            "Import ListNotations.", "Open Scope Z_scope."]
+    goals = 0
+    for i, (pos, edges, crossing, S, m) in enumerate(samples):
+        P = scaled_ints(pos, S)
+        lat = ("(mkLattice " + z(S) + " [" + "; ".join(f"({z(x)}, {z(y)})" for x, y in P) + "] ["
+               + "; ".join(f"({int(j)}, {int(k)})%nat" for j, k in edges) + "] ["
+               + "; ".join(f"({z(a)}, {z(b)})" for a, b in crossing) + "])")
+        body.append(f"Definition L{i} : lattice := {lat}.")
+        adj = "[" + "; ".join(nl(r) for r in m["adj"]) + "]"
+        body.append(f"Goal adj_table L{i} = {adj}. Proof. vm_compute. reflexivity. Qed.")
+        goals += 1
+        if m["plaquettes"] is None:
+            body.append(f"Goal find_all_plaquettes L{i} = None. Proof. vm_compute. reflexivity. Qed.")
+        else:
+            ps = "[" + "; ".join(
+                "(" + ", ".join([nl(p["vertices"]), nl(p["edges"]),
+                                 "[" + "; ".join("true" if d == 1 else "false" for d in p["directions"]) + "]",
+                                 z(p["area2"]), z(p["winding"])]) + ")" for p in m["plaquettes"]) + "]"
+            body.append(f"Goal option_map (map (fun p => (p_verts p, p_edges p, p_dirs p, p_area2 p, p_winding p))) "
+                        f"(find_all_plaquettes L{i}) = Some {ps}. Proof. vm_compute. reflexivity. Qed.")
+        goals += 1
+    d = workdir or tempfile.mkdtemp(prefix="latx-", dir="/var/tmp")
+    path = os.path.join(d, "cases.v")
+    with open(path, "w") as f:
+        f.write("\n".join(body) + "\n")
+    p = subprocess.run(["timeout", "900", "coqc", "-Q", os.path.join(VERIF, "coq"), "Koala", path], cwd=d,
+                       stdout=subprocess.PIPE, stderr=subprocess.STDOUT, text=True)
+    import shutil
+    if p.returncode != 0:
+        msg = p.stdout[-800:]
+        shutil.rmtree(d, ignore_errors=True)
+        raise RuntimeError("extraction cross-check: the lat driver's answer is not what vm_compute gives inside Coq: " + msg)
+    shutil.rmtree(d, ignore_errors=True)
+    return goals
